@@ -149,6 +149,10 @@ class CEmitter:
     def fold_cast(self, t, a):
         """Constant-fold numeric casts of literals exactly (x87 long double literals narrowed to
         float/double are rounded twice, as the compiler does)."""
+        if a[0] == 'const' and t[0] == 'i' and a[1][0] in ('i', 'bool') and not isinstance(a[2], bool):
+            v = int(a[2])
+            if t[2] and -(1 << (t[1] - 1)) <= v < (1 << (t[1] - 1)) or (not t[2] and 0 <= v < (1 << t[1])):
+                return ('const', t, v)
         if a[0] == 'const' and t[0] == 'f' and a[1][0] in ('f', 'i', 'bool'):
             v = Fraction(a[2])
             if a[1][0] == 'f':
@@ -245,6 +249,17 @@ class CEmitter:
             return '%s->data' % self.pex(args[0])
         if name in ('vec_size',):
             return '%s->size' % self.pex(args[0])
+        if name == 'hash':
+            at = args[0][1]
+            tag = {'float': 'f', 'double': 'd', 'long double': 'ld'}.get(at[1] if at[0] == 'f' else '', 'i%d' % (at[1] if at[0] == 'i' else 0))
+            fn = '__CPROVER_uninterpreted_hash_%s' % tag
+            self.lib_used.add(('decl', fn, 'unsigned long', (self.ctype(at),)))
+            a = self.ex(args[0])
+            if at[0] == 'f':
+                # libstdc++ std::hash<floating>: 0 for +0 and -0, else a function of the object representation
+                # (assumed contract: equal non-zero values of the same type have equal representations)
+                return '%s((%s == 0) ? (%s)0 : %s)' % (fn, a, self.ctype(at), a)
+            return '%s(%s)' % (fn, a)
         tag = {'float': 'f', 'double': 'd', 'long double': 'ld'}.get(t[1] if t[0] == 'f' else '', 'x')
         fn = '__CPROVER_uninterpreted_%s_%s' % (name, tag)
         self.lib_used.add(('decl', fn, self.ctype(t), tuple(self.ctype(a[1]) for a in args)))
